@@ -105,7 +105,8 @@ class SoftPlusTransform(Transform):
         return softplus(x)
 
     def _inverse(self, y):
-        return torch.expm1(y).log()
+        # log(exp(y) - 1) without overflowing for large y
+        return y + torch.log(-torch.expm1(-y))
 
     def log_abs_det_jacobian(self, x, y):
         return -softplus(-x)
@@ -119,10 +120,11 @@ class CumSumSoftPlusTransform(Transform):
     sign = +1
 
     def _call(self, x):
-        return torch.log(x.cumsum(-1).exp() + 1.0)
+        return softplus(x.cumsum(-1))
 
     def _inverse(self, y):
-        z = torch.expm1(y).log()
+        # log(exp(y) - 1) without overflowing for large y
+        z = y + torch.log(-torch.expm1(-y))
         return torch.cat((z[..., :1], z[..., 1:] - z[..., :-1]), -1)
 
     def log_abs_det_jacobian(self, x, y):
